@@ -85,6 +85,10 @@ pub const MIRRORS: &[(&[&str], &str, &str, &str)] = &[
     (&["C02", "C03", "C05"], "generator/rasn/utils.rs", "format_choice_option", "Gen.Struct"),
     (&["C02", "C03", "C05"], "generator/rasn/utils.rs", "format_member_or_option", "Gen.Struct"),
     (&["C05", "C14"], "generator/rasn/utils.rs", "format_enum_members", "Gen.Struct"),
+    (&["C02", "C03", "C05"], "generator/rasn/builder.rs", "generate_sequence_or_set", "Gen.Struct.structItem (set / non_exhaustive / automatic_tags / tag annotations)"),
+    (&["C02", "C03", "C05"], "generator/rasn/builder.rs", "generate_choice", "Gen.Struct.choiceItem"),
+    (&["C02", "C03"], "generator/rasn/builder.rs", "generate_sequence_or_set_of", "Gen.Struct (list item; the element tag is not applied: C03_element_tag_dropped_counterexample)"),
+    (&["C07"], "generator/rasn/builder.rs", "generate_value", "Gen.Values.renderAssignment (the composite arms)"),
     (&["C03"], "generator/rasn/utils.rs", "format_tag", "Gen.Struct.formatTag"),
     (&["C02"], "generator/rasn/utils.rs", "constraints_and_type_name", "Gen.Struct"),
     (&["C02"], "generator/rasn/utils.rs", "needs_unnesting", "Gen.Struct"),
